@@ -120,6 +120,9 @@ struct iauth_xquery_client {
     /** Bitmask of services that sent OK responses to this client. */
     uint32_t ok_mask;
 
+    /** Value of #iauth_xquery_epoch that the masks above are valid for. */
+    unsigned int epoch;
+
     /** Account name concatenated with password; empty if unknown.
      *
      * This is the value passed by the client in its *first* PASSWORD
@@ -155,6 +158,9 @@ struct iauth_xquery_service {
     /** If non-zero, this service is (still) mentioned in the config file. */
     int configured;
 
+    /** Value of #iauth_xquery_epoch when this service got its slot. */
+    unsigned int epoch;
+
     /** Total number of queries sent to this service. */
     unsigned int queries;
 
@@ -189,6 +195,9 @@ static struct iauth_module iauth_xquery;
 static struct log_type *iauth_xquery_log;
 static struct iauth_xquery_services iauth_xquery_services;
 static struct iauth_flagset iauth_xquery_flags[4];
+
+/** Number of times a service slot has been vacated. */
+static unsigned int iauth_xquery_epoch;
 
 static struct {
     unsigned long n_cli_allocs;
@@ -257,6 +266,41 @@ static void iauth_xquery_unref(unsigned int ii)
     iauth_xquery_services.vec[ii] = NULL;
     xfree(srv);
     stats.n_srv_frees++;
+    iauth_xquery_epoch++;
+}
+
+/** Finds the iauth_xquery state for \a req.
+ *
+ * A client's service masks are indexed by service slot.  If slots
+ * have been vacated since the masks were last used, the bits for
+ * slots that are now empty, or that another service has moved into
+ * since, say nothing about the current occupant and are cleared.
+ *
+ * \param[in] req Client to look up.
+ * \return The client's state, or NULL if it has none.
+ */
+static struct iauth_xquery_client *iauth_xquery_client(struct iauth_request *req)
+{
+    struct iauth_xquery_service *srv;
+    struct iauth_xquery_client *cli;
+    void *ptr;
+    unsigned int ii;
+
+    ptr = &iauth_xquery;
+    cli = set_find(&req->data, &ptr);
+    if (!cli || (cli->epoch == iauth_xquery_epoch))
+        return cli;
+
+    for (ii = 0; ii < iauth_xquery_services.used; ++ii) {
+        srv = iauth_xquery_services.vec[ii];
+        if (srv && (srv->epoch <= cli->epoch))
+            continue;
+        cli->sent_mask &= ~(1u << ii);
+        cli->more_mask &= ~(1u << ii);
+        cli->ok_mask &= ~(1u << ii);
+    }
+    cli->epoch = iauth_xquery_epoch;
+    return cli;
 }
 
 static void iauth_xquery_set_account(struct iauth_request *req,
@@ -376,6 +420,7 @@ static void iauth_xquery_new_client(struct iauth_request *req)
     node = set_node_alloc(sizeof(*cli));
     cli = set_node_data(node);
     cli->key = &iauth_xquery;
+    cli->epoch = iauth_xquery_epoch;
     set_insert(&req->data, node);
 }
 
@@ -385,14 +430,12 @@ static void iauth_xquery_check(struct iauth_request *req,
     struct iauth_xquery_client *cli;
     struct iauth_xquery_service *srv;
     const char *hostname;
-    void *ptr;
     unsigned int ii;
     char routing[ROUTINGLEN];
     char username[USERLEN+2];
 
     /* Find the client's state struct. */
-    ptr = &iauth_xquery;
-    cli = set_find(&req->data, &ptr);
+    cli = iauth_xquery_client(req);
     if (!cli)
         return;
 
@@ -534,12 +577,10 @@ static void iauth_xquery_password(struct iauth_request *req,
                                   const char password[])
 {
     struct iauth_xquery_client *cli;
-    void *ptr;
     unsigned int ii;
 
     /* Look up our state structure for the client. */
-    ptr = &iauth_xquery;
-    cli = set_find(&req->data, &ptr);
+    cli = iauth_xquery_client(req);
     if (!cli)
         return;
 
@@ -605,6 +646,7 @@ static void iauth_xquery_config_service(const char *name, const char *type)
         stats.n_srv_allocs++;
         srv = xmalloc(sizeof(*srv) + strlen(name));
         strcpy(srv->name, name);
+        srv->epoch = iauth_xquery_epoch;
 
         /* Try to insert it in an empty slot. */
         for (ii = 0; ii < iauth_xquery_services.used; ++ii) {
@@ -717,11 +759,9 @@ int iauth_xreply_ok(struct iauth_request *request, const char *service)
 {
     struct iauth_xquery_service *srv;
     struct iauth_xquery_client *cli;
-    void *ptr;
     unsigned int ii;
 
-    ptr = &iauth_xquery;
-    cli = set_find(&request->data, &ptr);
+    cli = iauth_xquery_client(request);
     if (!cli)
         return -1;
 
